@@ -50,6 +50,20 @@ def o_one_token(key):
     return ok, f"tokens={toks!r}"
 
 
+def o_token_in_context(key):
+    """the key is its own token wherever it stands: after a number, a letter, another element, and before them"""
+    for pre in ("5", "12", "3.5", "a", "+", "`s`"):
+        toks = lexer.tokenise(pre + key)
+        want = lexer.tokenise(pre) + [lexer.Token(lexer.TokenType.GENERAL, key)]
+        if toks != want:
+            return False, f"{pre + key!r} lexes as {toks!r}"
+    for post in ("5", "a", "+"):
+        toks = lexer.tokenise(key + post)
+        if not toks or toks[0] != lexer.Token(lexer.TokenType.GENERAL, key):
+            return False, f"{key + post!r} lexes as {toks!r}"
+    return True, "one token in every context"
+
+
 def o_in_codepage(key):
     return all(c in encoding.codepage for c in key), "key has a character outside the code page"
 
@@ -93,7 +107,7 @@ def o_modifier(m):
 
 
 ORACLES = {"codepage_bijective": o_codepage, "roundtrip_bytes": o_roundtrip_bytes, "key_one_token": o_one_token,
-           "key_in_codepage": o_in_codepage, "key_unique": o_unique, "key_reachable": o_reachable,
+           "key_in_codepage": o_in_codepage, "key_token_in_context": o_token_in_context, "key_unique": o_unique, "key_reachable": o_reachable,
            "documented": o_documented, "doc_arity": o_doc_arity, "modifier_reachable": o_modifier}
 
 
@@ -146,6 +160,8 @@ def run(ctx):
     for k in ekeys + mkeys + pmods + schars:
         ctx.check("key_in_codepage", k)
         ctx.check("key_one_token", k)
+    for k in sorted(set(ekeys + mkeys + pmods)):
+        ctx.check("key_token_in_context", k)
     for k in sorted(set(ekeys)):
         ctx.check("key_unique", k)
         ctx.check("key_reachable", k)
@@ -159,7 +175,8 @@ def run(ctx):
     if set(rt_elements) != set(ekeys):
         ctx.disagree("tables", "elements", len(rt_elements), len(set(ekeys)))
     # lexer + parser, real vs model, on every key and key pair-with-modifier
-    progs = sorted(set(ekeys + mkeys + pmods + schars)) + [m + k for m in pmods for k in ["+", "kA", "∆c"]]
+    progs = sorted(set(ekeys + mkeys + pmods + schars)) + [m + k for m in pmods for k in ["+", "kA", "∆c"]] \
+        + [pre + k for k in sorted(set(ekeys)) for pre in ("5", "3.5", "a")] + [k + "5" for k in sorted(set(ekeys))]
     lines = ["tok\t" + vy.cps(p) for p in progs] + ["lexparse\t" + vy.cps(p) for p in progs]
     exp = [vy.show_tokens(lexer.tokenise(p)) for p in progs] + [vy.impl_lexparse(p) for p in progs]
     out = ctx.driver(lines)
